@@ -88,6 +88,19 @@ func c07Acceptable(v float64, p int) []int64 {
 	}
 	dist := new(big.Rat).Sub(frac, half)
 	dist.Abs(dist)
+	if dist.Sign() == 0 {
+		// an exact tie: when the scaled value is also exact in float64 (so that no product rounding can be blamed),
+		// "rounded" means half away from zero, for negative ordinates as for positive ones
+		var f float64
+		if p >= 0 {
+			f = v * math.Pow10(p)
+		} else {
+			f = v / math.Pow10(-p)
+		}
+		if fr := new(big.Rat); !math.IsInf(f, 0) && fr.SetFloat64(f) != nil && fr.Cmp(s) == 0 {
+			return []int64{exact}
+		}
+	}
 	if dist.Cmp(tol) <= 0 {
 		return []int64{lo, lo + 1}
 	}
